@@ -3,7 +3,7 @@
    All theorems hold over every commutative ring (in particular Z: the bit-for-bit clause),
    for every d >= 2, every mode size >= 1 and every rank profile. *)
 From Coq Require Import List Arith Lia PeanoNat ZArith.
-From TV Require Import Num.Ops Lin.Tab Lin.BigSum TT.Chain Model.ActOne Proofs.ActOneP Proofs.ActOneP2 Proofs.ActOneP3.
+From TV Require Import Num.Ops Lin.Tab Lin.BigSum TT.Chain Model.ActOne Model.ActOneX Proofs.ActOneP Proofs.ActOneP2 Proofs.ActOneP3 Proofs.ActOneXP.
 Import ListNotations.
 
 Section C01.
@@ -48,6 +48,10 @@ Proof. exact (mean_w_spec K Rth). Qed.
 Theorem C01_mul_scalar_spec : forall Y1 Y2, chain 1 Y1 1 -> chain 1 Y2 1 -> same_shape Y1 Y2 ->
   mul_scalar K Y1 Y2 = msum K (shape Y1) (fun idx => get K Y1 idx * get K Y2 idx).
 Proof. exact (mul_scalar_spec K Rth). Qed.
+
+(* the variant executed in the correspondence (Kronecker core built once per step) is the same function *)
+Theorem C01_mul_scalar_x : forall Y1 Y2, mul_scalar_x K Y1 Y2 = mul_scalar K Y1 Y2.
+Proof. exact (mul_scalar_x_eq K). Qed.
 
 (* interface vectors (norm=None): the first right interface is the entry itself; and the element
    gradient: the entry is linear in core k with coefficients (left interface) x (right interface) *)
